@@ -359,7 +359,9 @@ class ExasolGenerator(generator.Generator):
             rename_func("EDIT_DISTANCE")
         ),
         # https://docs.exasol.com/db/latest/sql_references/functions/alphabeticallistfunctions/mod.htm
-        exp.Mod: lambda self, e: self.func("MOD", *e.unnest_operands()),
+        exp.Mod: lambda self, e: self.func(
+            "MOD", *(arg.unnest() if isinstance(arg, exp.Paren) else arg for arg in e.iter_expressions())
+        ),
         # https://docs.exasol.com/db/latest/sql_references/functions/alphabeticallistfunctions/from_posix_time.htm
         exp.UnixToTime: lambda self, e: self.func("FROM_POSIX_TIME", e.this),
         # https://docs.exasol.com/db/latest/sql_references/functions/alphabeticallistfunctions/rank.htm
